@@ -140,7 +140,7 @@ theorem custom_layout (pal : List Color) (h : Nat) (px junk : Bytes) (hpal : pal
   rw [bind_guard _ _ (by simp)]
   rw [bind_sectionHeader tagHead 20 rfl (by omega)]
   rw [bind_u32 2 (by omega), bind_u32 32 (by omega), bind_u32 h (by omega), bind_u32 8 (by omega), bind_u32 8 (by omega)]
-  rw [bind_guard _ _ (decide_eq_true ⟨rfl, rfl, rfl, h32, by omega, rfl⟩)]
+  rw [bind_guard _ _ (by unfold tilesetHeaderOk; exact decide_eq_true ⟨rfl, rfl, rfl, h32, by omega, rfl⟩)]
   rw [bind_sectionHeader tagPPAL 1048 rfl (by omega), bind_sectionHeader tagHead 4 rfl (by omega), bind_u32 1 (by omega)]
   rw [bind_guard _ _ (by decide)]
   rw [bind_sectionHeader tagData 1024 rfl (by omega)]
